@@ -411,6 +411,7 @@ with parseStatement (fuel : nat) (s : pstate) {struct fuel} : res (option node) 
     if curIs s token_RETURN then
       let t := pk (ps_cur s) in
       if peekIs s token_SEMICOLON || peekIs s token_RBRACE || peekIs s token_EOF || peekIs s token_EOL
+         || peekIs s token_LINECOMMENT
       then ROk (Some (NReturn t None)) s
       else
         dob (v, s1) <- parseExpression f ast_LOWEST (nextToken s);
